@@ -66,6 +66,8 @@ def generate(seed, tier):
     cfg["Jdes"] = rw.choice([3, 5, 8, 12])
     cfg["win"] = rw.choice(["kaiser", "kaiser", "hann", "np_kaiser", "bartlett"])
     cfg["olap"] = rw.choice(["default", 0.5, 0.3, 0.75])
+    if rw.random() < 0.15:
+        cfg["olap"] = rw.choice([0.875, 0.9, 0.95])      # densely overlapping segments (K*L several times the record)
     if rw.random() < 0.12:
         cfg["scheduler_perm"] = rw.randrange(2 ** 31)      # a user scheduler emitting the built-in plan's bins in another order
     kinds = ["numpy", "real-numba"] if big else list(WORLD_KINDS)
